@@ -70,6 +70,13 @@ func c09Check4(c *explore.Ctx, sig string, m map[uint32]uint16, probes []uint32,
 			c.Fail("C09.format4-lib", sig, "library maps %#x to %d, want %d (map %s)", code, got, want, fmtMap(m))
 			return
 		}
+		// code points outside the BMP, and values that are no code points at all, are unmapped
+		for _, r := range []rune{rune(code) + 0x10000, rune(code) + 0x100000, rune(code) - 0x10000, -1 - rune(code)} {
+			if got := sub.Lookup(r); got != 0 {
+				c.Fail("C09.format4-lib", sig+" / outside the BMP", "library maps %#x (not a code of a format 4 subtable) to %d (map %s)", r, got, fmtMap(m))
+				return
+			}
+		}
 	}
 	if len(ref) != len(f4) {
 		c.Fail("C09.format4-ref", sig, "specification decoder finds %d mapped codes, want %d (map %s)", len(ref), len(f4), fmtMap(m))
